@@ -39,6 +39,7 @@ type c15Scenario struct {
 	Ignore  int    `json:"ignore_mask"` // bit i set = kind c15Ignorable[i] ignored
 	Skip    int    `json:"skip"`
 	Yields  int    `json:"callback_yields"`
+	Append  bool   `json:"callback_appends,omitempty"` // the consumer appends the parent to the children slice it was given (as split-car does)
 	Replace bool   `json:"-"`
 }
 
@@ -141,6 +142,12 @@ func (sc c15Scenario) run(c *explore.Ctx, t *cargen.Truth, want string) explore.
 			}
 			// the delivered objects must still be intact when the (slow) consumer finishes with them
 			got2 = append(got2, snapshot(parent, children))
+			if sc.Append && parent != nil {
+				// the slice handed to the callback is the consumer's: appending to it (cmd-car-split.go builds the
+				// block's family this way) must not reach into another group
+				family := append(children, *parent)
+				_ = family
+			}
 			return nil
 		}, sc.ignoreKinds()...)
 		oa.SetSkip(uint64(sc.Skip))
@@ -205,7 +212,7 @@ func c15Class(got []c15Group, want string) string {
 func TestVerif_C15(t *testing.T) {
 	R := vkit.New("C15")
 	defer R.Finish()
-	R.Rule = "scenario = generated CAR (7 layouts: no block, blocks with 0..3 children, more children than the preallocation, trailing non-block objects, multi-frame payloads and rewards) x ignore-set (all 32 subsets of {Entry,Rewards,DataFrame,Subset,Epoch}) x skip {0,1} x consumer callback with 0..2 scheduling points; for each scenario every interleaving of the reading and the consuming goroutine is executed on the instrumented accumulator (queue capacity 1, preallocation 2) with happens-before state pruning; oracle = delivered (parent, children) groups with offsets, section lengths and content hashes equal to the generator's ground truth, unchanged until the callback returns, and Run terminates; non-trivial = more than 2 context switches"
+	R.Rule = "scenario = generated CAR (7 layouts: no block, blocks with 0..3 children, more children than the preallocation, trailing non-block objects, multi-frame payloads and rewards) x ignore-set (all 32 subsets of {Entry,Rewards,DataFrame,Subset,Epoch}) x skip {0,1} x consumer callback with 0..2 scheduling points, with and without appending the parent to the children slice it was given; for each scenario every interleaving of the reading and the consuming goroutine is executed on the instrumented accumulator (queue capacity 1, preallocation 2) with happens-before state pruning; oracle = delivered (parent, children) groups with offsets, section lengths and content hashes equal to the generator's ground truth, unchanged until the callback returns, and Run terminates; non-trivial = more than 2 context switches"
 	R.Assume("flush queue capacity and children preallocation are shrunk (1 and 2) so that back-pressure and reallocation happen on small CARs; the CAR reader itself has no scheduling points (runs atomically between channel operations)")
 	if u := vkitEnv("VERIF_UNMATCHED_RULES"); u != "" {
 		R.Note("shrinking rules that no longer match (real constants kept): %s", u)
@@ -242,6 +249,9 @@ func TestVerif_C15(t *testing.T) {
 			for skip := 0; skip <= 1; skip++ {
 				for _, y := range yields {
 					scs = append(scs, c15Scenario{Car: n, Ignore: mask, Skip: skip, Yields: y})
+					if y >= 1 {
+						scs = append(scs, c15Scenario{Car: n, Ignore: mask, Skip: skip, Yields: y, Append: true})
+					}
 				}
 			}
 		}
